@@ -74,43 +74,52 @@ impl Sample for Wipe7 {
     fn zeroed() -> Self { Wipe7(7) }
 }
 
-fn zero_case<T: Sample + Zeroize, N: ArrayLength>(mode: u8) -> Result<CaseInfo, String> {
-    let n = N::USIZE;
-    let mut a = GA::<T, N>::uninit();
-    for (i, s) in a.iter_mut().enumerate() {
-        s.write(T::prior(mode, i));
-    }
-    let mut a = unsafe { GA::assume_init(a) };
-    a.zeroize();
-    for (i, e) in a.iter().enumerate() {
-        if *e != T::zeroed() {
-            return Err(format!("after zeroize() element {i} of {n} is {e:?}, its zeroized value is {:?}", T::zeroed()));
+// NOTE: the checks below are macros instantiated at concrete (T, N), not generic functions: the
+// trait bounds under which `GenericArray<T, N>: Zeroize / ConstDefault` hold are an implementation
+// detail, and a check must not stop compiling when they are reformulated.
+macro_rules! zero_case {
+    ($T:ty, $N:ty, $mode:expr) => {{
+        let n = <$N>::USIZE;
+        let mut a = GA::<$T, $N>::uninit();
+        for (i, s) in a.iter_mut().enumerate() {
+            s.write(<$T as Sample>::prior($mode, i));
         }
-    }
-    Ok(CaseInfo::new(n > 0, "zeroized"))
+        let mut a: GA<$T, $N> = unsafe { GA::assume_init(a) };
+        Zeroize::zeroize(&mut a);
+        let mut r: Result<CaseInfo, String> = Ok(CaseInfo::new(n > 0, "zeroized"));
+        for (i, e) in a.iter().enumerate() {
+            if *e != <$T as Sample>::zeroed() {
+                r = Err(format!("after zeroize() element {i} of {n} is {e:?}, its zeroized value is {:?}", <$T as Sample>::zeroed()));
+                break;
+            }
+        }
+        r
+    }};
 }
 
-fn cd_case<T, N: ArrayLength>(ct: &GA<T, N>) -> Result<CaseInfo, String>
-where
-    T: ConstDefault + PartialEq + core::fmt::Debug + Default,
-    GA<T, N>: ConstDefault,
-{
-    let n = N::USIZE;
-    let rt = GA::<T, N>::const_default();
-    let rt2 = <GA<T, N> as ConstDefault>::DEFAULT;
-    let df = GA::<T, N>::default();
-    for i in 0..n {
-        if rt[i] != T::DEFAULT || rt2[i] != T::DEFAULT || ct[i] != T::DEFAULT {
-            return Err(format!("constant default: element {i} of {n} is {:?} (run time) / {:?} (const item), T::DEFAULT is {:?}", rt[i], ct[i], T::DEFAULT));
+macro_rules! cd_case {
+    ($T:ty, $N:ty, $ct:expr) => {{
+        let n = <$N>::USIZE;
+        let ct: &GA<$T, $N> = $ct;
+        let rt: GA<$T, $N> = GA::<$T, $N>::const_default();
+        let rt2: GA<$T, $N> = <GA<$T, $N> as ConstDefault>::DEFAULT;
+        let df: GA<$T, $N> = Default::default();
+        let mut r: Result<CaseInfo, String> = Ok(CaseInfo::new(n > 0, "const-default"));
+        for i in 0..n {
+            if rt[i] != <$T as ConstDefault>::DEFAULT || rt2[i] != <$T as ConstDefault>::DEFAULT || ct[i] != <$T as ConstDefault>::DEFAULT {
+                r = Err(format!("constant default: element {i} of {n} is {:?} (run time) / {:?} (const item), T::DEFAULT is {:?}", rt[i], ct[i], <$T as ConstDefault>::DEFAULT));
+                break;
+            }
+            if df[i] != rt[i] {
+                r = Err(format!("Default::default() and const_default() differ at element {i}"));
+                break;
+            }
         }
-        if df[i] != rt[i] {
-            return Err(format!("Default::default() and const_default() differ at element {i}"));
+        if rt.len() != n || ct.len() != n {
+            r = Err("wrong length".into());
         }
-    }
-    if rt.len() != n || ct.len() != n {
-        return Err("wrong length".into());
-    }
-    Ok(CaseInfo::new(n > 0, "const-default"))
+        r
+    }};
 }
 
 macro_rules! for_ns {
@@ -123,7 +132,7 @@ pub fn run(ctx: &mut Ctx) {
         macro_rules! z {
             ($T:ty, $name:literal) => {
                 for mode in 0u8..3 {
-                    ctx.case(&format!("C19;zeroize;N={n};T={};prior={}", $name, ["ff", "indexed", "zero"][mode as usize]), || zero_case::<$T, N>(mode));
+                    ctx.case(&format!("C19;zeroize;N={n};T={};prior={}", $name, ["ff", "indexed", "zero"][mode as usize]), || zero_case!($T, N, mode));
                 }
             };
         }
@@ -139,8 +148,8 @@ pub fn run(ctx: &mut Ctx) {
                 const CT: GA<$T, N> = GA::<$T, N>::const_default();
                 static ST: GA<$T, N> = <GA<$T, N> as ConstDefault>::DEFAULT;
                 ctx.case(&format!("C19;const-default;N={n};T={}", $name), || {
-                    cd_case::<$T, N>(&CT)?;
-                    cd_case::<$T, N>(&ST)
+                    cd_case!($T, N, &CT)?;
+                    cd_case!($T, N, &ST)
                 });
             }};
         }
